@@ -1737,7 +1737,7 @@ def lt(left: Any, right: Any) -> bool:
   elif left is None or isinstance(left, utils.MissingValue):
     # `None` (or the missing marker) is never less than itself.
     return False
-  elif isinstance(left, list):
+  elif isinstance(left, (list, tuple)):
     min_len = min(len(left), len(right))
     for i in range(min_len):
       l, r = left[i], right[i]
